@@ -19,7 +19,7 @@ import z3  # noqa: E402
 
 PID = 'C16'
 WANT = ('C16',)
-EXCS = ['RuntimeError(msg)', 'ValueError()', 'KeyboardInterrupt()', 'ZeroDivisionError(msg)', 'SystemExit(3)', 'GeneratorExit()', 'UserBaseException()',
+EXCS = ['RuntimeError(msg)', 'ValueError()', 'KeyboardInterrupt()', 'ZeroDivisionError(msg)', 'StopIteration()', 'SystemExit(3)', 'GeneratorExit()', 'UserBaseException()',
         'AssertionError()', 'OverflowError(msg)']
 
 
@@ -57,7 +57,7 @@ def scenarios(run):
     quick = run.quick
     out = []
     base = {'overrides': ['before', 'iter', 'stop'], 'sibling': 'other'}
-    excs = EXCS if not quick else EXCS[:5]
+    excs = EXCS if not quick else EXCS[:6]
     for i, exc in enumerate(excs):
         for N in (1, 2):
             for fk in (1, 2):
